@@ -31,9 +31,15 @@ OF THIS SOFTWARE, EVEN IF ADVISED OF THE POSSIBILITY OF SUCH DAMAGE.
 #include <cstdint>
 #include "common.hpp"
 #include "program.hpp"
+#ifdef RANDOMX_VERIF
+#include "verif_hooks.hpp"
+#endif
 
 /* Global namespace for C binding */
 class randomx_vm {
+#ifdef RANDOMX_VERIF
+	friend struct randomx_verif::Access;
+#endif
 public:
 	virtual ~randomx_vm() = 0;
 	virtual void allocate() = 0;
@@ -88,6 +94,9 @@ namespace randomx {
 
 	template<class Allocator, bool softAes>
 	class VmBase : public randomx_vm {
+#ifdef RANDOMX_VERIF
+		friend struct randomx_verif::Access;
+#endif
 	public:
 		explicit VmBase(randomx_flags flags) { vmFlags = flags; }
 		~VmBase() override;
